@@ -174,7 +174,11 @@ def main():
         if r['ninputs'] > 0:
             nontrivial += sum(1 for x in r['results'] if x['kind'] != 'reach')
         if args.verbose:
-            print('%-60s exec %.2fs wall %.2fs  %s' % (jid, r['exec_s'], r['wall'], ' '.join('%s:%s' % (x['label'][:18], x['verdict']) for x in r['results'])))
+            cnt = {}
+            for x in r['results']:
+                kk = (x['label'][:18] if x['kind'] in ('close', 'assert', 'reach', 'concrete') else x['kind']) + ':' + x['verdict']
+                cnt[kk] = cnt.get(kk, 0) + 1
+            print('%-50s exec %.2fs wall %.2fs  %s' % (jid, r['exec_s'], r['wall'], ' '.join('%s%s' % (k, '' if c == 1 else 'x%d' % c) for k, c in cnt.items())))
         for x in r['results']:
             nobl += 1
             v = x['verdict']
